@@ -117,11 +117,51 @@ def table_cases(name, tier):
         for x, y, z in itertools.product(A, repeat=3):
             for o in ("and", "or"):
                 yield {"a": [o, P(x), P(y)], "b": P(z)}
+    elif name == "wide-with-neutral":
+        yield from wide_special_cases(tier)
     elif name == "mixed-py-triples":
         # x or (x and y) or x  shapes and merged operands meeting a third atom
         A = [a for a in py_atoms("quick") if not a["rev"]][:: 4 if tier == "quick" else 2]
         for x, y, z in itertools.product(A, repeat=3):
             yield {"a": ["or", P(x), ["and", P(x), P(y)]], "b": P(z)}
+
+
+_WIDE_ATOMS = [
+    {"var": "os_name", "op": "==", "val": "nt", "rev": False, "style": 0},
+    {"var": "sys_platform", "op": "==", "val": "linux", "rev": False, "style": 0},
+    {"var": "python_version", "op": ">=", "val": "3.8", "rev": False, "style": 0},
+    {"var": "platform_machine", "op": "==", "val": "arm64", "rev": False, "style": 0},
+    {"var": "implementation_name", "op": "==", "val": "pypy", "rev": False, "style": 0},
+    {"var": "extra", "op": "==", "val": "foo", "rev": False, "style": 0},
+    {"var": "platform_system", "op": "!=", "val": "Linux", "rev": False, "style": 0},
+    {"var": "python_version", "op": "<", "val": "3.11", "rev": False, "style": 0},
+]
+
+
+def wide_special_cases(tier):
+    """Wide DNF / CNF markers combined with the neutral / absorbing elements on either side:
+    union()'s three-way candidate choice can hand back the raw, un-normalised candidate."""
+    n = len(_WIDE_ATOMS)
+    shapes = []
+    c2 = list(itertools.combinations(range(n), 2))
+    c3 = list(itertools.combinations(range(n), 3))
+    s3, s2 = (5, 3) if tier == "quick" else (2, 1)
+    for g1 in c3[::s3]:
+        for g2 in c2[::s2]:
+            shapes.append([g1, g2])
+    for g1 in c3[:: s3 * 3]:
+        for g2 in c3[1 :: s3 * 3]:
+            shapes.append([g1, g2])
+    for g1 in c2[:: s2 * 2]:
+        for g2 in c2[1 :: s2 * 3]:
+            shapes.append([g1, g2, c2[(g1[0] * 7 + g2[1] * 3) % len(c2)]])
+    shapes = [[[_WIDE_ATOMS[i] for i in g] for g in groups] for groups in shapes]
+    for groups in shapes:
+        for inner, outer in (("and", "or"), ("or", "and")):
+            tree = [outer, [[inner, [["atom", a] for a in g]] for g in groups]]
+            for special in (["empty"], ["any"]):
+                yield {"a": ["parse", tree], "b": special}
+                yield {"a": special, "b": ["parse", tree]}
 
 
 def tasks(tier, seed):
@@ -131,7 +171,7 @@ def tasks(tier, seed):
     shards = 48 if tier == "quick" else 192
     # slow, straggler-prone shards first
     t = [(MOD, "hyp", (n // shards, seed * 1_000_003 + i, tier)) for i in range(shards)]
-    for name, nsh in (("py-pairs", 32 if tier == "quick" else 64), ("rel-pairs", 4), ("str-triples", 32), ("extra-triples", 16), ("mixed-py-triples", 16)):
+    for name, nsh in (("py-pairs", 32 if tier == "quick" else 64), ("rel-pairs", 4), ("str-triples", 32), ("extra-triples", 16), ("mixed-py-triples", 16), ("wide-with-neutral", 16)):
         for sh in range(nsh):
             t.append((MOD, "tables", (name, tier, sh, nsh)))
     return t
